@@ -98,6 +98,20 @@ def run_c11(tier, seed):
         scratch.cleanup()
 
 
+def run_c17_text(scratch, binp, tier, seed):
+    """Configuration text part of C17: returns (verdict, number of vectors, trace path, generation stats)."""
+    vecs, gen = gen_vectors(scratch, "Config", "Config_gen.cfg", "cfggen")
+    inp, outp = scratch.path("cfg-in.ndjson"), scratch.path("cfg-out.ndjson")
+    with open(inp, "w") as f:
+        for v in vecs:
+            f.write(v + "\n")
+    rc, out = vlib.run_test_binary(binp, "TestVerifConfig", {"VERIF_IN": inp, "VERIF_OUT": outp})
+    if rc != 0 or "VERIF-CONFIG" not in out:
+        raise Infra("config harness failed:\n" + out[-3000:])
+    verdict = vlib.validate_chunks(scratch, outp, "ConfigTrace", lambda ln: True, tag="cfgtv", min_chunk=200)
+    return verdict, len(vecs), outp, gen
+
+
 def run(pid, tier, seed):
     if pid == "C11":
         return run_c11(tier, seed)
